@@ -3,6 +3,8 @@ import HbsModel.Lemmas.Text
 import HbsModel.Props.C03
 import HbsModel.Props.C02
 import HbsModel.Lemmas.TildeValue
+import HbsModel.Lemmas.IfBlockLines
+import HbsModel.Props.C06
 /-
   C11  Whitespace control removes exactly the whitespace the rules name.
 -/
@@ -341,5 +343,80 @@ theorem tilde_equals_manual_deletion (r : Registry) (fs : FS) (L R : Str) (data 
 /-- non-vacuity: text with a line break, a tab and a no-break space next to the tag on either side -/
 example : PlainText.TextBeforeTag ['a', '\n', '\t', '\u00a0'] ∧ trimEnd ['a', '\n', '\t', '\u00a0'] = ['a'] ∧ trimStart ['\u3000', '\n', 'z', ' '] = ['z', ' '] := by
   refine ⟨⟨by simp [PlainText.noOpen], by simp, by simp⟩, by decide, by decide⟩
+
+/-! ### the standalone-line rule at block tags – at source level -/
+
+/-- `{{#if v}}⏎A⏎{{/if}}` -/
+abbrev ifBlockLinesSrc : Str := PlainText.ilSrc
+
+/-- **a block whose tags stand alone on their lines contributes only the lines of its body**: for EVERY text `L` that is empty or
+    ends an empty line (a line break followed by blanks only – the opening tag's indentation), EVERY text `R` that begins with the
+    rest of an empty line (blanks and a line break, or blanks up to the end of the template) and every data value,
+    `render(L ++ {{#if v}}⏎A⏎{{/if}} ++ R) = trimEndBlank L ++ (A⏎ when data.v is truthy) ++ stripFirstNewline (trimStartBlank R)`:
+    the indentation in front of each block tag and the line break behind it are removed – the one behind the opening tag
+    although pest had skipped it and compile2 put it back first – and nothing else; a falsy condition leaves no blank line
+    behind.  From the source string to the bytes: `il_tagAt` (the block's pairs, by kernel evaluation), `step_if_start_sa`,
+    `step_inner_raw_tl`, `step_if_end_sa` (the loop of compile2 with `process_standalone_statement` answering "standalone" at both
+    tags: `processStandalone_spec`, `processStandalone_own_line`), `C06.if_text_block_writes` (renderer). -/
+theorem if_block_on_its_own_lines (r : Registry) (fs : FS) (L R : Str) (data j : Json) (hdev : r.dev = false)
+    (hL : L = [] ∨ PlainText.TextBeforeTag L) (hR : PlainText.noOpen R)
+    (hLsa : endsWithEmptyLine L = true)
+    (hRsa : (startsWithEmptyLine R || (trimStartBlank R).isEmpty) = true)
+    (hif : assocGet r.helpers ['i', 'f'] = some (.ifH true))
+    (hsafe : Spec.indexSafe data [['v']] = true) (hj : Spec.descend data [['v']] = some j) :
+    r.renderTemplate fs (L ++ ifBlockLinesSrc ++ R) data
+      = .ok (trimEndBlank L ++ (if j.truthy false then ['A', '\n'] else []) ++ stripFirstNewline (trimStartBlank R)) := by
+  unfold Registry.renderTemplate Registry.renderTemplateToWrite Registry.renderTemplateWithContextToWrite
+    Registry.compileForRenderTemplate
+  obtain ⟨m, hcomp⟩ := PlainText.compile_text_il_text L _ _ { preventIndent := r.preventIndent } hL (PlainText.textAfterTag_split R hR) hLsa
+    (by rw [← PlainText.split_ws R]; simpa using hRsa)
+  rw [← PlainText.split_ws R] at hcomp
+  rw [hcomp]
+  simp only [Registry.renderResolved, hdev, Bool.not_false, ↓reduceIte]
+  generalize Pest.lineCol (L ++ PlainText.ilSrc ++ R) (L.length + 10) = lc
+  let txt : Str := if j.truthy false then ['A', '\n'] else []
+  let tR : Str := stripFirstNewline (trimStartBlank R)
+  let ets : List (Elem × Str) := (if L = [] then [] else [(.raw (trimEndBlank L), trimEndBlank L)])
+    ++ [(.block { PlainText.ifOpenSA with template := some (PlainText.ilBody lc) }, txt)]
+    ++ (if R = [] then [] else [(.raw tR, tR)])
+  have hel : (PlainText.leftT L (trimEndBlank L)).elements ++ [Elem.block { PlainText.ifOpenSA with template := some (PlainText.ilBody lc) }]
+      ++ (if R = [] then [] else [Elem.raw tR]) = ets.map (·.1) := by
+    simp only [ets]
+    by_cases hLe : L = [] <;> by_cases hRe : R = [] <;> simp [hLe, hRe, PlainText.leftT, Tmpl.empty, Tmpl.elements]
+  have htxt : (ets.map (·.2)).flatten = trimEndBlank L ++ txt ++ tR := by
+    simp only [ets]
+    by_cases hLe : L = []
+    · subst hLe
+      by_cases hRe : R = []
+      · subst hRe; simp [tR, trimEndBlank, dropWhileEnd, trimStartBlank, stripFirstNewline]
+      · simp [hRe, trimEndBlank, dropWhileEnd]
+    · by_cases hRe : R = []
+      · subst hRe; simp [hLe, tR, trimStartBlank, stripFirstNewline]
+      · simp [hLe, hRe]
+  rw [hel]
+  have hw : ∀ p ∈ ets, WritesText r data { ({ rootTemplate := none } : RC) with currentTemplate := none } p.1 p.2 := by
+    intro p hp
+    simp only [ets, List.mem_append, List.mem_singleton] at hp
+    rcases hp with (hp | rfl) | hp
+    · split at hp
+      · simp at hp
+      · simp at hp; subst hp; exact writes_raw r data _ rfl _
+    · exact C06.if_text_block_writes r data j _ _ ['A', '\n'] lc rfl rfl rfl rfl rfl rfl rfl rfl rfl rfl hif hsafe hj
+    · split at hp
+      · simp at hp
+      · simp at hp; subst hp; exact writes_raw r data _ rfl _
+  have hlen : ets.length + 12 ≤ renderFuel := by
+    have h1 : (if L = [] then [] else [((Elem.raw (trimEndBlank L), trimEndBlank L) : Elem × Str)]).length ≤ 1 := by split <;> simp
+    have h2 : (if R = [] then [] else [((Elem.raw tR, tR) : Elem × Str)]).length ≤ 1 := by split <;> simp
+    simp only [ets, List.length_append, List.length_singleton]
+    have : renderFuel = 4000 := rfl
+    omega
+  have := render_writes_template r data none ets m { rootTemplate := none } hlen hw
+  simp only [Tmpl.name] at this ⊢
+  rw [this, htxt]
+
+/-- non-vacuity: an indented block between two lines of text -/
+example : endsWithEmptyLine ['x', '\n', ' ', ' '] = true ∧ (startsWithEmptyLine [' ', '\n', 'y'] || (trimStartBlank [' ', '\n', 'y']).isEmpty) = true
+    ∧ trimEndBlank ['x', '\n', ' ', ' '] = ['x', '\n'] ∧ stripFirstNewline (trimStartBlank [' ', '\n', 'y']) = ['y'] := by decide
 
 end Hbs.C11
